@@ -21,7 +21,7 @@ TolMs == 2      \* every logged time is rounded to 1 ms: a difference of two of 
 
 TInit == /\ l = 1 /\ viol = <<>> /\ hdr = <<>> /\ trs = <<>> /\ est = <<>> /\ prev = <<>> /\ phase = "setup"
          /\ stats = [cases |-> 0, nets |-> 0, walks |-> 0, snaps |-> 0, results_ok |-> 0, results_err |-> 0,
-                     est_err |-> 0, est_panic |-> 0, skipped |-> 0, committed_unstable |-> 0, not_quiet |-> 0,
+                     est_err |-> 0, est_panic |-> 0, skipped |-> 0, committed_unstable |-> 0, untimed_prefix |-> 0, not_quiet |-> 0,
                      auth_disagree |-> 0, not_walk |-> 0, blocked_disagree |-> 0, waits |-> 0, tau_checked |-> 0, tau_drift |-> 0, bind_base |-> 0, bind_spacing |-> 0, bind_flip |-> 0, bind_lock |-> 0, bind_lead |-> 0, opp_pairs |-> 0, follow_pairs |-> 0, lock_pairs |-> 0]
          /\ auth = <<>> /\ route = <<>> /\ pos = <<>> /\ T = <<>> /\ fixed = <<>>
 
@@ -148,6 +148,9 @@ Snap == /\ R.ev = "Snap"
                  !.tau_checked = @ + ts.n, !.tau_drift = @ + ts.drift, !.bind_base = @ + ts.base,
                  !.bind_spacing = @ + ts.spacing, !.bind_flip = @ + ts.flip, !.bind_lock = @ + ts.lock, !.bind_lead = @ + ts.lead,
                  !.committed_unstable = @ + (IF prev = <<>> \/ CommittedStableOf(prev.plan, prev.fixed, s.plan) THEN 0 ELSE 1),
+                 \* Dispatch!TimedPrefix on the recorded state: every node below a train's free index has a pass time
+                 !.untimed_prefix = @ + (IF \A t \in 1..Len(s.plan) : \A i \in 1..s.free[t] : i > Len(s.plan[t]) \/ s.plan[t][i][3] < INF
+                                         THEN 0 ELSE 1),
                  !.not_quiet = @ + (IF s.fixed = s.free THEN 0 ELSE 1),
                  !.auth_disagree = @ + (IF AuthAgreesRec(s) THEN 0 ELSE 1),
                  !.not_walk = @ + (IF Len(est) # Len(s.plan) \/ PlanIsWalkOf(est, s.plan) THEN 0 ELSE 1),
